@@ -1,7 +1,7 @@
 (* Properties_C01 — private objects are unreachable unless the normal user is logged in; token objects
    need read-write sessions.  Statements only. *)
 From Coq Require Import List NArith Bool.
-From SoftHSM Require Import Gen_Const Gen_Pure Defs Core AccessFacts StepFacts Invariants PrivacyFacts FindFacts.
+From SoftHSM Require Import Gen_Entry EntryFacts Gen_Const Gen_Pure Defs Core AccessFacts StepFacts Invariants PrivacyFacts FindFacts.
 Import ListNotations.
 Local Open Scope N_scope.
 
@@ -81,3 +81,85 @@ Theorem C01_token_create_needs_rw : forall (s : state) (h : N) (x : session) (tm
   fst (step s (OCreate h tm)) = s /\ (forall hh, snd (step s (OCreate h tm)) <> RHandle hh).
 Proof. exact token_create_needs_rw. Qed.
 Print Assumptions C01_token_create_needs_rw.
+
+(* ---- object-creating entry points (regenerated from SoftHSM.cpp): the object is built only after haveWrite has accepted the
+   token / private flags extracted from ITS OWN template; with the access matrix (C01_matrix lemmas) a private object therefore
+   needs the normal user logged in, whatever path creates it ------------------------------------------------------------ *)
+Theorem C01_CreateObject_write_check : forall (e : CreateObject.env),
+  bounded (CreateObject.haveWrite e) -> CreateObject.hv1_rv e < SENTINEL -> CreateObject.zz_rest e = SENTINEL ->
+  CreateObject.app e = SENTINEL ->
+  CreateObject.handleManager_getSession e (CreateObject.hSession e) <> 0 /\
+  CreateObject.haveWrite e (CreateObject.session_getState e) (CreateObject.hv1_isOnToken e) (CreateObject.hv1_isPrivate e) = CKR_OK.
+Proof. exact CreateObject_guards. Qed.
+Print Assumptions C01_CreateObject_write_check.
+
+Theorem C01_DeriveKey_write_check : forall (e : C_DeriveKey.env),
+  bounded (C_DeriveKey.haveRead e) -> bounded (C_DeriveKey.haveWrite e) -> C_DeriveKey.hv1_rv e < SENTINEL ->
+  (forall a b c d f g h i j, C_DeriveKey.deriveDH e a b c d f g h i j = SENTINEL) ->
+  (forall a b c d f g h i j, C_DeriveKey.deriveECDH e a b c d f g h i j = SENTINEL) ->
+  (forall a b c d f g h i j, C_DeriveKey.deriveEDDSA e a b c d f g h i j = SENTINEL) ->
+  (forall a b c d f g h i j, C_DeriveKey.deriveSymmetric e a b c d f g h i j = SENTINEL) ->
+  C_DeriveKey.app e = SENTINEL ->
+  let kgb := C_DeriveKey.key_getBooleanValue e in let sst := C_DeriveKey.session_getState e in
+  kgb CKA_DERIVE false = true /\
+  C_DeriveKey.isMechanismPermitted e (C_DeriveKey.handleManager_getObject e (C_DeriveKey.hBaseKey e)) (C_DeriveKey.pMechanism e) = true /\
+  C_DeriveKey.haveRead e sst (if kgb CKA_TOKEN false then 1 else 0) (if kgb CKA_PRIVATE true then 1 else 0) = CKR_OK /\
+  C_DeriveKey.haveWrite e sst (C_DeriveKey.hv1_isOnToken e) (C_DeriveKey.hv1_isPrivate e) = CKR_OK.
+Proof. exact DeriveKey_guards. Qed.
+Print Assumptions C01_DeriveKey_write_check.
+
+Theorem C01_GenerateKey_write_check : forall (e : C_GenerateKey.env),
+  bounded (C_GenerateKey.haveWrite e) ->
+  (forall a b c d f g, C_GenerateKey.generateAES e a b c d f g = SENTINEL) -> (forall a b c d f g, C_GenerateKey.generateDES e a b c d f g = SENTINEL) ->
+  (forall a b c d f g, C_GenerateKey.generateDES2 e a b c d f g = SENTINEL) -> (forall a b c d f g, C_GenerateKey.generateDES3 e a b c d f g = SENTINEL) ->
+  (forall a b c d f g, C_GenerateKey.generateDHParameters e a b c d f g = SENTINEL) -> (forall a b c d f g, C_GenerateKey.generateDSAParameters e a b c d f g = SENTINEL) ->
+  (forall a b c d f g, C_GenerateKey.generateGeneric e a b c d f g = SENTINEL) ->
+  C_GenerateKey.app e = SENTINEL ->
+  C_GenerateKey.find e (C_GenerateKey.supportedMechanisms_begin e) (C_GenerateKey.supportedMechanisms_end e) (C_GenerateKey.pMechanism_mechanism e) <> C_GenerateKey.supportedMechanisms_end e /\
+  C_GenerateKey.handleManager_getSession e (C_GenerateKey.hSession e) <> 0 /\
+  C_GenerateKey.haveWrite e (C_GenerateKey.session_getState e) (C_GenerateKey.hv1_isOnToken e) (C_GenerateKey.hv1_isPrivate e) = CKR_OK.
+Proof. exact GenerateKey_guards. Qed.
+Print Assumptions C01_GenerateKey_write_check.
+
+Theorem C01_GenerateKeyPair_write_check : forall (e : C_GenerateKeyPair.env),
+  (forall a b c, C_GenerateKeyPair.haveWrite e a b c < SENTINEL) ->
+  (forall a b c d f g h i j k l, C_GenerateKeyPair.generateDH e a b c d f g h i j k l = SENTINEL) ->
+  (forall a b c d f g h i j k l, C_GenerateKeyPair.generateDSA e a b c d f g h i j k l = SENTINEL) ->
+  (forall a b c d f g h i j k l, C_GenerateKeyPair.generateEC e a b c d f g h i j k l = SENTINEL) ->
+  (forall a b c d f g h i j k l, C_GenerateKeyPair.generateED e a b c d f g h i j k l = SENTINEL) ->
+  (forall a b c d f g h i j k l, C_GenerateKeyPair.generateGOST e a b c d f g h i j k l = SENTINEL) ->
+  (forall a b c d f g h i j k l, C_GenerateKeyPair.generateRSA e a b c d f g h i j k l = SENTINEL) ->
+  C_GenerateKeyPair.app e = SENTINEL ->
+  C_GenerateKeyPair.find e (C_GenerateKeyPair.supportedMechanisms_begin e) (C_GenerateKeyPair.supportedMechanisms_end e) (C_GenerateKeyPair.pMechanism_mechanism e)
+    <> C_GenerateKeyPair.supportedMechanisms_end e /\
+  (* one write check for both halves: on the token if either is, private if either is *)
+  C_GenerateKeyPair.haveWrite e (C_GenerateKeyPair.session_getState e)
+    (negb (C_GenerateKeyPair.hv1_ispublicKeyToken e =? 0) || negb (C_GenerateKeyPair.hv2_isprivateKeyToken e =? 0))
+    (negb (C_GenerateKeyPair.hv1_ispublicKeyPrivate e =? 0) || negb (C_GenerateKeyPair.hv2_isprivateKeyPrivate e =? 0)) = CKR_OK.
+Proof. exact GenerateKeyPair_guards. Qed.
+Print Assumptions C01_GenerateKeyPair_write_check.
+
+Theorem C01_UnwrapKey_write_check : forall (e : C_UnwrapKey.env),
+  bounded (C_UnwrapKey.haveRead e) -> bounded (C_UnwrapKey.haveWrite e) -> bounded1 (C_UnwrapKey.MechParamCheckRSAPKCSOAEP e) ->
+  C_UnwrapKey.hv1_rv e < SENTINEL -> C_UnwrapKey.zz_rest e = SENTINEL ->
+  C_UnwrapKey.app e = SENTINEL ->
+  let ugb := C_UnwrapKey.unwrapKey_getBooleanValue e in let ugu := C_UnwrapKey.unwrapKey_getUnsignedLongValue e in
+  let mech := C_UnwrapKey.pMechanism_mechanism e in let sst := C_UnwrapKey.session_getState e in
+  ugb CKA_UNWRAP false = true /\
+  C_UnwrapKey.isMechanismPermitted e (C_UnwrapKey.handleManager_getObject e (C_UnwrapKey.hUnwrappingKey e)) (C_UnwrapKey.pMechanism e) = true /\
+  C_UnwrapKey.haveRead e sst (if ugb CKA_TOKEN false then 1 else 0) (if ugb CKA_PRIVATE true then 1 else 0) = CKR_OK /\
+  (* the object to be created: the write check is applied to the token / private flags extracted from the template *)
+  C_UnwrapKey.haveWrite e sst (C_UnwrapKey.hv1_isOnToken e) (C_UnwrapKey.hv1_isPrivate e) = CKR_OK /\
+  ((mech = CKM_AES_KEY_WRAP \/ mech = CKM_AES_KEY_WRAP_PAD) -> ugu CKA_CLASS CKO_VENDOR_DEFINED = CKO_SECRET_KEY /\ ugu CKA_KEY_TYPE CKK_VENDOR_DEFINED = CKK_AES) /\
+  ((mech = CKM_RSA_PKCS \/ mech = CKM_RSA_PKCS_OAEP) -> ugu CKA_CLASS CKO_VENDOR_DEFINED = CKO_PRIVATE_KEY /\ ugu CKA_KEY_TYPE CKK_VENDOR_DEFINED = CKK_RSA).
+Proof. exact UnwrapKey_guards. Qed.
+Print Assumptions C01_UnwrapKey_write_check.
+
+Theorem C01_CopyObject_read_check : forall (e : C_CopyObject.env),
+  bounded (C_CopyObject.haveRead e) -> C_CopyObject.zz_rest e = SENTINEL ->
+  C_CopyObject.app e = SENTINEL ->
+  let ogb := C_CopyObject.object_getBooleanValue e in
+  C_CopyObject.haveRead e (C_CopyObject.session_getState e) (ogb CKA_TOKEN false) (ogb CKA_PRIVATE true) = CKR_OK /\
+  ogb CKA_COPYABLE true <> 0.
+Proof. exact CopyObject_guards. Qed.
+Print Assumptions C01_CopyObject_read_check.
